@@ -172,6 +172,11 @@ def case(spec):
                 pre = []
                 if rng.random() < 0.3:
                     pre = ['--dir', rng.choice('$AZq')]
+                if rng.random() < 0.4:
+                    # the volume comes from --drive, with a --ui option before or after it
+                    wild = '#.*'
+                    uo = ['--ui', rng.choice(['acorn', 'watford', 'opus'])] if rng.random() < 0.7 else []
+                    pre = pre + (['--drive', dv] + uo if rng.random() < 0.5 else uo + ['--drive', dv])
                 r_ = dfs(dfsbin, img.path, ['info', wild], pre=pre)
                 res.execs += 1
                 if not screen(res, r_, PROP, 'info', files):
@@ -201,9 +206,17 @@ def case(spec):
                         continue
                     cur_dir = rng.choice(cands)
                     pre = ['--dir', cur_dir] if (cur_dir != '$' or rng.random() < 0.3) else []
+                    catargs = ['cat', dv]
+                    how = rng.randrange(3)
+                    if how == 1:
+                        pre += ['--drive', dv]          # the current volume, then (maybe) the ui style
+                        catargs = ['cat']
                     if ui:
                         pre += ['--ui', ui]
-                    r_ = dfs(dfsbin, img.path, ['cat', dv], pre=pre)
+                    if how == 2:
+                        pre += ['--drive', dv]          # ui style first, then the current volume
+                        catargs = ['cat']
+                    r_ = dfs(dfsbin, img.path, catargs, pre=pre)
                     res.execs += 1
                     if screen(res, r_, PROP, 'cat', files):
                         continue
